@@ -199,3 +199,62 @@ pub fn clip_doc(v: &Value) -> Value {
         v.clone()
     }
 }
+
+/// Where the library pipeline locates the error of a rejected program: (file name, byte span, error kind).
+/// None when the program is accepted and evaluates, or when the error carries no position (import cycle,
+/// syntax errors without a tree).
+pub fn error_location(src: &Sources) -> Option<(String, usize, usize, String)> {
+    use crate::drive::pipeline::{self, Outcome, BASE};
+    let e = match pipeline::run(src, None) {
+        Outcome::Rejected(e) | Outcome::EvalError(e) => e,
+        _ => return None,
+    };
+    let sp = e.span?;
+    if sp.start == 0 && sp.end == 0 {
+        return None;
+    }
+    let file = sp.loc.strip_prefix(BASE)?.to_owned();
+    Some((file, sp.start, sp.end, e.kind))
+}
+
+/// The diagnostics a language server has published must contain one for the located error, in the document of
+/// the module the error lives in, with exactly the range of the error's span in the client's text of that
+/// document. Returns a description of the problem, if any.
+pub fn check_error_published(
+    diags: &std::collections::BTreeMap<String, Vec<serde_json::Value>>,
+    uri_of: &dyn Fn(&str) -> String,
+    text_of: &dyn Fn(&str) -> Option<String>,
+    expect: &(String, usize, usize, String),
+) -> Option<(String, serde_json::Value)> {
+    let (file, start, end, kind) = expect;
+    let text = text_of(file)?;
+    if *end > text.len() || !text.is_char_boundary(*start) || !text.is_char_boundary(*end) {
+        return None;
+    }
+    let doc = crate::drive::lsp::ClientDoc::new(&text);
+    let (ps, pe) = (doc.position_of_byte(&text, *start), doc.position_of_byte(&text, *end));
+    let want = json!({"start": {"line": ps[0], "character": ps[1]}, "end": {"line": pe[0], "character": pe[1]}});
+    let uri = uri_of(file);
+    let here: Vec<&serde_json::Value> = diags.get(&uri).map(|v| v.iter().collect()).unwrap_or_default();
+    if here.iter().any(|d| d["range"] == want) {
+        return None;
+    }
+    let elsewhere: Vec<String> = diags
+        .iter()
+        .filter(|(u, v)| **u != uri && !v.is_empty())
+        .map(|(u, v)| format!("{} {}", u.rsplit('/').next().unwrap_or(""), v[0]["range"]))
+        .collect();
+    let class = if here.is_empty() && elsewhere.is_empty() {
+        "no-diagnostic-for-a-located-error"
+    } else if here.is_empty() {
+        "diagnostic-published-for-another-document"
+    } else {
+        "diagnostic-range-is-not-the-error-span"
+    };
+    Some((
+        format!("{class}:{kind}"),
+        json!({"file": file, "span": [start, end], "expected_range": want,
+               "published_for_the_document": here.iter().map(|d| d["range"].clone()).collect::<Vec<_>>(),
+               "published_elsewhere": elsewhere, "selected_text": crate::util::clip(&text[*start..*end], 80)}),
+    ))
+}
